@@ -119,6 +119,8 @@ type goRender struct {
 	specdefs map[string]*SpecDef // renderable specdefs
 	strNames map[string]bool     // identifiers known to be strings (for ite typing)
 	olds     *[]string
+	noWrap   bool // second rendering variant: x[i] is a slice element (not a byte of a string compared as int)
+	usedIdx  bool // the clause contains an index expression (so the two variants differ)
 }
 
 func exprString(e ast.Expr) string {
@@ -234,8 +236,12 @@ func (g *goRender) render(n ast.Expr) ast.Expr {
 		x.X = g.render(x.X)
 		return x
 	case *ast.IndexExpr:
-		// only string indexing is supported: yields a byte, compared as int
+		// string indexing yields a byte, compared as int; slice indexing yields the element (variant noWrap)
 		x.X, x.Index = g.render(x.X), g.render(x.Index)
+		g.usedIdx = true
+		if g.noWrap {
+			return x
+		}
 		return &ast.CallExpr{Fun: ast.NewIdent("int"), Args: []ast.Expr{x}}
 	case *ast.BasicLit:
 		if x.Kind == token.CHAR {
@@ -255,6 +261,33 @@ func (g *goRender) render(n ast.Expr) ast.Expr {
 // atoms by the Go parser.
 func (g *goRender) clause(src string) string {
 	src = strings.TrimSpace(src)
+	if strings.HasPrefix(src, "forall ") {
+		// integer-quantified clauses are checked on a small range (the antecedent bounds the variable; an evaluation that
+		// panics - an index outside the data - counts as that instance holding)
+		head, body, ok := strings.Cut(src[len("forall "):], "::")
+		if !ok {
+			panic("forall")
+		}
+		var vars []string
+		for _, v := range strings.Split(head, ",") {
+			f := strings.Fields(v)
+			if len(f) == 2 && f[1] != "int" || len(f) == 0 || len(f) > 2 {
+				panic("only int quantifiers are rendered")
+			}
+			vars = append(vars, f[0])
+		}
+		body = strings.TrimSpace(body)
+		for strings.HasPrefix(body, "{") {
+			i := strings.Index(body, "}")
+			body = strings.TrimSpace(body[i+1:])
+		}
+		inner := g.clause(body)
+		out := fmt.Sprintf("if !spec_safeB(func() bool { return %s }, true) { return false }", inner)
+		for i := len(vars) - 1; i >= 0; i-- {
+			out = fmt.Sprintf("for %s := -1; %s <= 40; %s++ { %s }", vars[i], vars[i], vars[i], out)
+		}
+		return fmt.Sprintf("func() bool { %s; return true }()", out)
+	}
 	if iff := splitTop(src, "<==>"); len(iff) == 2 {
 		return fmt.Sprintf("((%s) == (%s))", g.clause(iff[0]), g.clause(iff[1]))
 	}
@@ -295,7 +328,7 @@ func (g *goRender) tryClause(cs *Contracts, scope, src string, olds *[]string) (
 		}
 	}()
 	src = expandPredsText(cs, scope, strings.TrimSpace(src))
-	for _, bad := range []string{"forall ", "exists ", "fresh(", "has(", "typeis(", "seq(", "allocated(", "smhas(", "smget(", "box(", "iterseen", "atloop"} {
+	for _, bad := range []string{"exists ", "fresh(", "has(", "typeis(", "seq(", "allocated(", "smhas(", "smget(", "box(", "iterseen", "atloop"} {
 		if strings.Contains(src, bad) {
 			return "", false
 		}
@@ -316,10 +349,11 @@ func relType(t types.Type, pkg *types.Package) string {
 // argument generators ----------------------------------------------------------------------------------------------
 
 type argGen struct {
-	loops []string // nested "for" headers (each opens one brace)
-	expr  string   // Go expression of the argument inside the loops
-	show  []string // variables to print
-	nStr  int
+	loops  []string // nested "for" headers (each opens one brace)
+	expr   string   // Go expression of the argument inside the loops
+	show   []string // variables to print
+	nStr   int
+	combos int // number of values enumerated for the non-string parts
 }
 
 // genArg builds the enumeration of a parameter of type t named name. Integer leaves are enumerated as int variables
@@ -329,17 +363,20 @@ func genArg(name string, t types.Type, pkg *types.Package, depth int) (*argGen, 
 	case *types.Basic:
 		switch {
 		case u.Info()&types.IsString != 0:
-			g := &argGen{loops: []string{fmt.Sprintf("for _, %s := range strs {", name)}, expr: name, show: []string{name}, nStr: 1}
+			g := &argGen{loops: []string{fmt.Sprintf("for _, %s := range strs {", name)}, expr: name, show: []string{name}, nStr: 1, combos: 1}
 			if relType(t, pkg) != "string" {
 				g.loops[0] = fmt.Sprintf("for _, %s_s := range strs { %s := %s(%s_s)", name, name, relType(t, pkg), name)
 			}
 			return g, true
 		case u.Info()&types.IsBoolean != 0:
-			return &argGen{loops: []string{fmt.Sprintf("for _, %s := range []bool{false, true} {", name)}, expr: name, show: []string{name}}, true
+			return &argGen{loops: []string{fmt.Sprintf("for _, %s := range []bool{false, true} {", name)}, expr: name, show: []string{name}, combos: 2}, true
 		case u.Info()&types.IsInteger != 0:
 			dom := "[]int{-1, 0, 1, 2, 3, 5}"
 			if u.Info()&types.IsUnsigned != 0 {
 				dom = "[]int{0, 1, 2, 3, 5}"
+			}
+			if depth > 0 {
+				dom = "[]int{0, 1, 4}" // fields of a struct parameter: a smaller domain keeps the product of the domains small
 			}
 			if u.Kind() == types.Uint8 {
 				dom = "[]int{0, ' ', ':', '1', 'a', 'Z', '\\n', 0x7f, 0xe9, 0xff}"
@@ -347,13 +384,13 @@ func genArg(name string, t types.Type, pkg *types.Package, depth int) (*argGen, 
 			if u.Kind() == types.Int32 {
 				dom = "[]int{0, ' ', ':', '1', 'a', 'Z', '\\n', '\\t', ';', '$', '€', 0xe9, 0x1F600, 0xFFFD, -1}"
 			}
-			return &argGen{loops: []string{fmt.Sprintf("for _, %s := range %s {", name, dom)}, expr: fmt.Sprintf("%s(%s)", relType(t, pkg), name), show: []string{name}}, true
+			return &argGen{loops: []string{fmt.Sprintf("for _, %s := range %s {", name, dom)}, expr: fmt.Sprintf("%s(%s)", relType(t, pkg), name), show: []string{name}, combos: strings.Count(dom, ",") + 1}, true
 		}
 	case *types.Struct:
 		if depth > 2 || u.NumFields() > 4 {
 			return nil, false
 		}
-		g := &argGen{}
+		g := &argGen{combos: 1}
 		var fields []string
 		for i := 0; i < u.NumFields(); i++ {
 			f := u.Field(i)
@@ -367,6 +404,7 @@ func genArg(name string, t types.Type, pkg *types.Package, depth int) (*argGen, 
 			g.loops = append(g.loops, sub.loops...)
 			g.show = append(g.show, sub.show...)
 			g.nStr += sub.nStr
+			g.combos *= sub.combos
 			fields = append(fields, f.Name()+": "+sub.expr)
 		}
 		// the struct value itself is bound to the parameter name
@@ -427,8 +465,12 @@ func smallScopeReplay1(repo *Repo, repoDir string, key string) *replayResult {
 	loops = append(loops, recvLoops...)
 	show = append(show, recvShow...)
 	nStr := 0
+	combos := 1
 	if recvName != "" {
 		nStr = 1
+		if len(recvLoops) > 2 {
+			combos = 8 // lexer: offsets of the input x atStart
+		}
 	}
 	strNames := map[string]bool{"in": true, "content": true}
 	for _, p := range params {
@@ -440,6 +482,7 @@ func smallScopeReplay1(repo *Repo, repoDir string, key string) *replayResult {
 		args = append(args, g.expr)
 		show = append(show, g.show...)
 		nStr += g.nStr
+		combos *= g.combos
 		if b, isB := p.Type().Underlying().(*types.Basic); isB && b.Info()&types.IsString != 0 {
 			strNames[p.Name()] = true
 		}
@@ -486,7 +529,7 @@ func smallScopeReplay1(repo *Repo, repoDir string, key string) *replayResult {
 			specGo = append(specGo, fmt.Sprintf("func spec_%s(%s) %s { return %s } // SPEC %s", n, strings.Join(ps, ", "), sd.Ret, body, n))
 		}
 	}
-	type item struct{ kind, label, text string }
+	type item struct{ kind, label, text, alt string }
 	var items []item
 	var olds []string
 	nReq := 0
@@ -497,11 +540,12 @@ func smallScopeReplay1(repo *Repo, repoDir string, key string) *replayResult {
 			continue
 		}
 		nReq++
-		items = append(items, item{"REQ", strconv.Itoa(i), fmt.Sprintf("\t\tif !spec_safeB(func() bool { return %s }, false) { continue } // REQ %d", code, i)})
+		items = append(items, item{kind: "REQ", label: strconv.Itoa(i), text: fmt.Sprintf("\t\tif !spec_safeB(func() bool { return %s }, false) { continue } // REQ %d", code, i)})
 	}
 	uncompiledReq := nReq < len(fc.Requires)
 	var checked []string
 	for i, en := range fc.Ensures {
+		g.noWrap, g.usedIdx = false, false
 		code, ok := g.tryClause(repo.cs, fc.Pkg, en.Src, &olds)
 		if !ok {
 			continue
@@ -511,7 +555,15 @@ func smallScopeReplay1(repo *Repo, repoDir string, key string) *replayResult {
 			label = fmt.Sprintf("ensures#%d", i)
 		}
 		checked = append(checked, label)
-		items = append(items, item{"ENS", label, fmt.Sprintf("\t\t\t\tif !spec_safeB(func() bool { return %s }, true) { return %q } // ENS %s", code, "ensures ["+label+"] "+en.Src, label)})
+		it := item{kind: "ENS", label: label, text: fmt.Sprintf("\t\t\t\tif !spec_safeB(func() bool { return %s }, true) { return %q } // ENS %s", code, "ensures ["+label+"] "+en.Src, label)}
+		if g.usedIdx {
+			g.noWrap = true
+			if code2, ok := g.tryClause(repo.cs, fc.Pkg, en.Src, &olds); ok {
+				it.alt = fmt.Sprintf("\t\t\t\tif !spec_safeB(func() bool { return %s }, true) { return %q } // ENS %s", code2, "ensures ["+label+"] "+en.Src, label)
+			}
+			g.noWrap = false
+		}
+		items = append(items, it)
 	}
 	nres := fn.Signature.Results().Len()
 	callExpr := fmt.Sprintf("%s(%s)", fn.Name(), strings.Join(args, ", "))
@@ -548,17 +600,28 @@ func smallScopeReplay1(repo *Repo, repoDir string, key string) *replayResult {
 	if len(fmtVals) > 0 {
 		descr = fmt.Sprintf("fmt.Sprintf(%q, %s)", strings.Join(fmtParts, " "), strings.Join(fmtVals, ", "))
 	}
-	maxLen := 3
-	if nStr >= 2 {
-		maxLen = 2
-	}
-	if nStr >= 3 {
-		maxLen = 1
+	// string length bound: the largest L with (alphabet^L)^nStr x (other domains) within about 8 million calls
+	maxLen := 1
+	for L := 2; L <= 4 && nStr > 0; L++ {
+		n := 1.0
+		for i := 0; i < nStr*L; i++ {
+			n *= 24
+		}
+		if n*float64(combos) <= 8e6 {
+			maxLen = L
+		}
 	}
 	mined := mineConstants(fn)
 	dropped := map[string]bool{}
+	useAlt := map[string]bool{}
+	altOf := map[string]string{}
+	for _, it := range items {
+		if it.alt != "" {
+			altOf[it.label] = it.alt
+		}
+	}
 	var lastOut string
-	for round := 0; round < 8; round++ {
+	for round := 0; round < 12; round++ {
 		var reqLines, ensLines, oldLines, specLines []string
 		for _, it := range items {
 			if dropped[it.kind+" "+it.label] {
@@ -566,6 +629,8 @@ func smallScopeReplay1(repo *Repo, repoDir string, key string) *replayResult {
 			}
 			if it.kind == "REQ" {
 				reqLines = append(reqLines, it.text)
+			} else if useAlt[it.label] && it.alt != "" {
+				ensLines = append(ensLines, it.alt)
 			} else {
 				ensLines = append(ensLines, it.text)
 			}
@@ -615,6 +680,45 @@ func TestVerifReplaySmallScope(t *testing.T) {
 		strs = append(strs, next...)
 		frontier = next
 	}
+	// second tier: longer strings over a core alphabet (a letter, a digit, blank, newline, a 2-byte and a 4-byte character
+	// and the one-character string constants of the code under replay)
+	core := []string{"a", "1", " ", "\n", "é", "\U0001F600"}
+	for _, m := range minedStrings {
+		if len(m) == 1 && len(core) < 12 {
+			dup := false
+			for _, c := range core {
+				dup = dup || c == m
+			}
+			if !dup {
+				core = append(core, m)
+			}
+		}
+	}
+	for extra := 1; extra <= 2; extra++ {
+		n := 1
+		for i := 0; i < %d+extra; i++ {
+			n *= len(core)
+		}
+		if n*%d > 6000000 || %d != 1 {
+			break
+		}
+		var next []string
+		for _, p := range frontier {
+			_ = p
+		}
+		var gen func(prefix string, left int)
+		gen = func(prefix string, left int) {
+			if left == 0 {
+				next = append(next, prefix)
+				return
+			}
+			for _, c := range core {
+				gen(prefix+c, left-1)
+			}
+		}
+		gen("", %d+extra)
+		strs = append(strs, next...)
+	}
 	for _, m := range minedStrings {
 		strs = append(strs, m, m+" ", m+"a", " "+m)
 	}
@@ -663,7 +767,7 @@ func TestVerifReplaySmallScope(t *testing.T) {
 	%s
 	fmt.Printf("REPLAY-NONE cases=%%d checked=%%d\n", cases, checked)
 }
-`, pkg.Name(), replaySpecLib, strings.Join(specLines, "\n"), mined, maxLen, strings.Join(loops, "\n\t"), strings.Join(reqLines, "\n"), descr,
+`, pkg.Name(), replaySpecLib, strings.Join(specLines, "\n"), mined, maxLen, maxLen, combos, nStr, maxLen, strings.Join(loops, "\n\t"), strings.Join(reqLines, "\n"), descr,
 			strings.Join(oldLines, "\n"), assign, strings.Join(resAlias, "; "), strings.Join(ensLines, "\n"), pkg.Name(), strings.TrimPrefix(key, pkg.Name()+"."), strings.Repeat("}", len(loops)))
 		tmp, err := os.MkdirTemp("", "govc-replay-")
 		if err != nil {
@@ -702,6 +806,11 @@ func TestVerifReplaySmallScope(t *testing.T) {
 				continue
 			}
 			if mm := regexp.MustCompile(`// (REQ|ENS|OLD|SPEC) (\S+)$`).FindStringSubmatch(lines[n-1]); mm != nil && !dropped[mm[1]+" "+mm[2]] {
+				if mm[1] == "ENS" && altOf[mm[2]] != "" && !useAlt[mm[2]] {
+					useAlt[mm[2]] = true // try the other reading of x[i] before giving the clause up
+					progress = true
+					continue
+				}
 				dropped[mm[1]+" "+mm[2]] = true
 				progress = true
 				if mm[1] == "REQ" {
